@@ -125,6 +125,10 @@ def run(ctx):
         def subscript(self, ai, e, ext, idx, st):
             c = self.subs.get(id(e))
             self.subs[id(e)] = (e, ext, idx if c is None else c[2].join(idx))
+
+        def overflow(self, ai, e, val, it, st):
+            self.ovf = getattr(self, 'ovf', [])
+            self.ovf.append((e, val, it))
     G = ctx.G
 
     def run_cs(fname_, month, day):
@@ -151,6 +155,10 @@ def run(ctx):
                   'a weekday table of extent %d is subscripted with %s for some date' % (ext, idx), construct='range:weekday:sub:%d' % ext,
                   detail=str(idx))
     ctx.check(len(o.subs) >= 2, 'C17-range', 'both get_weekday tables are subscripted', fw, 'found %d' % len(o.subs), construct='range:weekday:count')
+    ovf = [x for x in getattr(o, 'ovf', []) if any(a is fw for a in ancestors(x[0]))]
+    ctx.check(not ovf, 'C17-range', 'get_weekday: no signed overflow for any 64-bit year', ovf[0][0] if ovf else fw,
+              'an intermediate of get_weekday leaves its type for some year (%s does not fit %s): the weekday of the years at the '
+              'ends of the range is undefined' % ((ovf[0][1], ovf[0][2]) if ovf else ('', '')), construct='range:weekday:ovf')
     from .tables import GREG
     prefix = [sum(GREG[:m - 1]) for m in range(1, 13)]
     for m in range(1, 13):
